@@ -11,7 +11,11 @@ from common import T_COMMON
 #   c11.holds.deporder       64 calls of Dependencies() all enumerate in the model's order
 # n = number of generated histories (each gives 4 lines, every second one also one deporder line per struct node).
 CFG = dict(
-    theorems=["reachable_inv", "spec_is_from_scratch", "outdated_is_outdated", "eval_is_value",
+    gen=[dict(tool="facts", mode="c11.skeleton", out="NodeSkeleton.lean")],
+    modules=["PolyVerif.Props.C11", "PolyVerif.Props.C11Src"],
+    theorems=[# Props/C11Src.lean: the model's Outdated() is the regenerated decision list of struct_node.go (engine F)
+              "outdated_from_source", "process_from_source", "value_state_from_source", "flag_stores_from_source",
+              "reachable_inv", "spec_is_from_scratch", "outdated_is_outdated", "eval_is_value",
               "read_fresh", "processed_is_fresh", "eval_frame", "exec_only_if_outdated", "exec_only_if_changed",
               "version_counts_executions", "struct_version_counts_executions", "version_step_exact", "remembered_length",
               "rejected_message_noop", "message_version_accounting",
@@ -24,7 +28,8 @@ CFG = dict(
     streams=[dict(name="c11", n=dict(quick=6000, thorough=100000))],
     trusted=[T_COMMON[1], T_COMMON[2],
              "hand-written model PolyVerif/Model/Nodes.lean of nodes/struct_node.go, value_node.go, parameter/value.go "
-             "(tied by stream c11: every op of every history, all nodes observed; not generated from source)",
+             "(tied by stream c11: every op of every history, all nodes observed) and, for Outdated()/process()/Value()/State() of struct_node.go, "
+             "by the engine-F extractor go/facts/c11.go (decision list and statement sequences regenerated; outdated_from_source proves the model equal to their interpretation; the reading of the printed Go conditions on the model state — outdatedAtom — is trusted)",
              "harness reads the private cache field `value` of nodes.Struct through reflect (observation only)"],
     residue=["KNOWN FINDING C11-skipping-processor (false of the code and of the model alike): for a processor that does not pull one "
              "of its wired struct-node inputs (real example modeling/extrude/screw.go:24-41) the unread dependency stays Stale and "
